@@ -642,25 +642,26 @@ Qed.
 
 Lemma run_agree_core : forall fx steps s,
   Inv s -> run_agree fx s steps = true ->
-  fx = true \/ known_run s steps = false ->
+  fx = true \/ prefix_class_run s steps = false ->
   trace_core (absS s) steps = true.
 Proof.
   intros fx. induction steps as [|[o code post dbd] r IH]; intros s HI HA HK; cbn [trace_core]; auto.
   cbn [run_agree] in HA. destruct (step fx s o) as [s' c] eqn:S.
-  apply andb_true_iff in HA. destruct HA as [HA HR]. apply andb_true_iff in HA. destruct HA as [HC HE].
+  apply andb_true_iff in HA. destruct HA as [HA HR]. apply andb_true_iff in HA. destruct HA as [HA _].
+  apply andb_true_iff in HA. destruct HA as [HC HE].
   apply N.eqb_eq in HC. apply oents_eqb_eq in HE. subst code post.
   assert (S1 : fst (step fx s o) = s') by (rewrite S; reflexivity).
   assert (S2 : snd (step fx s o) = c) by (rewrite S; reflexivity).
   (* the step is outside the known class, or the tree is fixed, or it was refused *)
-  assert (CL : Inv s' /\ (fx = true \/ known_run s' r = false)).
+  assert (CL : Inv s' /\ (fx = true \/ prefix_class_run s' r = false)).
   { destruct HK as [HK|HK].
     - split; [|left; exact HK]. rewrite <- S1. apply inv_step_gen; auto. left. exact HK.
     - destruct fx.
       + split; [|left; reflexivity]. rewrite <- S1. apply inv_step_gen; auto. left. reflexivity.
-      + cbn [known_run] in HK. rewrite S in HK. apply orb_false_iff in HK. destruct HK as [K1 K2].
+      + cbn [prefix_class_run] in HK. rewrite S in HK. apply orb_false_iff in HK. destruct HK as [K1 K2].
         split; [|right; exact K2].
         destruct (c =? 0) eqn:C0.
-        * cbn [andb] in K1. unfold known_step in K1.
+        * cbn [andb] in K1. unfold prefix_class_step in K1.
           rewrite <- S1. apply inv_step_gen; auto. right. exact K1.
         * assert (s' = s).
           { rewrite <- S1. apply refused_unchanged. rewrite S2. apply N.eqb_neq. exact C0. }
@@ -681,17 +682,36 @@ Qed.
 
 Lemma agree_core : forall fx init steps,
   agree_gen fx (CHist init steps) = true ->
-  fx = true \/ known_gen (CHist init steps) = false ->
+  fx = true \/ prefix_class (CHist init steps) = false ->
   nd_dump init && trace_core init steps = true.
 Proof.
   intros fx init steps HA HK. cbn [agree_gen] in HA.
   apply andb_true_iff in HA. destruct HA as [HA HR]. apply andb_true_iff in HA. destruct HA as [HE HI].
-  apply oents_eqb_eq in HE. apply invb_Inv in HI. cbn [known_gen] in HK.
+  apply oents_eqb_eq in HE. apply invb_Inv in HI. cbn [prefix_class] in HK.
   rewrite <- HE. rewrite (nd_dump_abs _ HI). cbn [andb].
   eapply run_agree_core; eauto.
 Qed.
 
-(* ------------------------------------------------------------------ the pinned tree: witnesses *)
+Lemma run_agree_dbd : forall steps s, run_agree true s steps = true -> dbd_zero steps = true.
+Proof.
+  induction steps as [|[o code post dbd] r IH]; intros s HA; cbn [dbd_zero]; auto.
+  cbn [run_agree] in HA. destruct (step true s o) as [s' c].
+  apply andb_true_iff in HA. destruct HA as [HA HR]. apply andb_true_iff in HA. destruct HA as [_ HD].
+  cbn [implb] in HD. rewrite HD. cbn [andb]. eauto.
+Qed.
+
+(* the repaired tree: agreement implies the whole executable predicate *)
+Lemma agree_pcheck : forall init steps,
+  agree_gen true (CHist init steps) = true -> pcheck (CHist init steps) = true.
+Proof.
+  intros init steps HA. cbn [pcheck]. rewrite trace_ok_split.
+  pose proof (agree_core true init steps HA (or_introl eq_refl)) as C.
+  apply andb_true_iff in C. destruct C as [C1 C2]. rewrite C1, C2. cbn [andb].
+  cbn [agree_gen] in HA. apply andb_true_iff in HA. destruct HA as [_ HR].
+  eapply run_agree_dbd; eauto.
+Qed.
+
+(* ------------------------------------------------------------------ the tree before bbee457: witnesses *)
 Definition w_state : state :=
   [ mkent 0 0 Live [] None; mkent 1 0 Tomb [] None; mkent 2 1 Live [] None ].
 Definition w_op : op := OModify 2 [MAdd 0 0; MAdd 0 1].
